@@ -353,6 +353,16 @@ def run_rules(ctx, res):
     res.rule(SKIP, "declarations reach the emitter as written: the CST->AST stage rebuilds every value from the same-named field / variant of its source unconditionally; the usedness predicates (which decide the unit-like collapse) look at the variant only; validation hands on each declaration as a plain, never mutated copy")
     mir_ = Mir(ctx["facts"]["mir"])
     declcopy.run(mir_, res, SKIP)
+    # the terminal enum's variants carry the declared payload types: C13's printer / write-once rules on the same facts
+    from . import c13 as _c13
+    from ..report import Result as _R13
+    r13 = _R13("C13", "quick", "other")
+    _c13.run_printer_rules(ctx, r13)  # (not c13.run_rules: that one re-evaluates this module's box rule)
+    _c13.run_immut_rules(ctx, r13)
+    v13 = [v for v in r13.violations if v.rule in ("R-C13-printer", "R-C13-immut")]
+    res.inst(SKIP, "payload types of terminal variants (C13 printer and write-once rules)", "", True, "%d violations" % len(v13))
+    for v in v13:
+        res.violate(SKIP, "c13|" + v.key, v.where, "the emitted terminal enum must carry each variant's declared payload type: " + v.msg)
     # the avoid set behind the fresh generic parameter is complete (shared with C05)
     from .c05 import analyse_ctor, check_fresh_machinery
     from ..report import Result as _R2
